@@ -273,7 +273,7 @@ void vp_memcpy(void *d, const void *s, uint64_t n)
 void vp_memmove(void *d, const void *s, uint64_t n)
 {
   uint8_t *dd = (uint8_t *)d; const uint8_t *ss = (const uint8_t *)s;
-  if (VP_PTR2INT(dd) <= VP_PTR2INT(ss))
+  if (VP_PTR_LE(dd, ss))
     for (uint64_t i = 0; i < n; ++i)
       dd[i] = ss[i];
   else
